@@ -68,6 +68,11 @@ type Item struct {
 	Alias string `json:"alias"`
 }
 
+type Asg struct {
+	C   string `json:"c"`
+	Val Val    `json:"val"`
+}
+
 type FromEl struct {
 	Tbl   string  `json:"tbl"`
 	Alias string  `json:"alias"`
@@ -91,6 +96,11 @@ type Query struct {
 	Offset int      `json:"offset"`
 	Style  int      `json:"style"` // rendering variant
 	Raw    string   `json:"raw"`   // if set: this SQL text instead of a rendered query (C18)
+	// a data-changing statement on From[0].Tbl (C01, statement histories): "insert" (Row), "update" (Set, Where), "delete" (Where);
+	// the answer is the statement's outcome plus what SELECT * returns after it
+	Dml string `json:"dml"`
+	Set []Asg  `json:"set"`
+	Row []Val  `json:"row"`
 }
 
 type Request struct {
@@ -291,6 +301,38 @@ func render(q Query) string {
 		sb += lim + off
 	}
 	return sb
+}
+
+func renderDml(q Query, cols []ColDef) string {
+	st := q.Style
+	tbl := q.From[0].Tbl
+	where := ""
+	if len(q.Where) > 0 {
+		where = " " + kw("WHERE", st) + " " + cond(q.Where, st)
+	}
+	switch q.Dml {
+	case "insert":
+		var cs, vs []string
+		for i, v := range q.Row {
+			cs = append(cs, cols[i].N)
+			vs = append(vs, lit(v))
+		}
+		if st%2 == 1 && len(cs) == len(cols) {
+			return fmt.Sprintf("%s %s %s (%s)", kw("INSERT INTO", st), tbl, kw("VALUES", st), strings.Join(vs, ", "))
+		}
+		return fmt.Sprintf("%s %s (%s) %s (%s)", kw("INSERT INTO", st), tbl, strings.Join(cs, ", "), kw("VALUES", st), strings.Join(vs, ", "))
+	case "delete":
+		return fmt.Sprintf("%s %s%s", kw("DELETE FROM", st), tbl, where)
+	}
+	var as []string
+	for _, a := range q.Set {
+		eq := " = "
+		if st%4 >= 2 {
+			eq = "="
+		}
+		as = append(as, a.C+eq+lit(a.Val))
+	}
+	return fmt.Sprintf("%s %s %s %s%s", kw("UPDATE", st), tbl, kw("SET", st), strings.Join(as, ", "), where)
 }
 
 func typeName(ty string) string {
@@ -626,7 +668,27 @@ func handle(req Request) Response {
 			text = render(q)
 		}
 		var r Res
-		if req.Stmt {
+		if q.Dml != "" {
+			text = renderDml(q, req.Db[q.From[0].Tbl].Cols)
+			r = runStmt(sess, text)
+			if !r.Hang && r.Panic == "" {
+				if q.Style%3 == 0 {
+					// the flusher's tick, then every clean page out of the cache: the next statement reads the data file
+					if err := storage.VerifTickAll(); err != nil {
+						r.Msg += " [flush after the statement: " + err.Error() + "]"
+					}
+					storage.VerifEvictClean(sess.RelationService)
+				}
+				sel := runSelect(sess, "SELECT * FROM "+q.From[0].Tbl)
+				r.Cols, r.Rows = sel.Cols, sel.Rows
+				if sel.Err {
+					// never equal to a table's content
+					r.Rows = [][]Val{{{T: "x"}}}
+					r.Msg += " [SELECT * after the statement: " + sel.Msg + sel.Panic + "]"
+					r.Hang = r.Hang || sel.Hang
+				}
+			}
+		} else if req.Stmt {
 			r = runStmt(sess, text)
 			if !r.Hang && r.Panic == "" {
 				// the 100 ms flusher is switched off in this harness; its tick is delivered here, between statements:
